@@ -163,6 +163,7 @@ class C14:
                     'prs': prs, 'nguess': rng.randint(1, 6),
                     'scaling': rng.choice([1, 0.5, 2.0]), 'seed': seed},
                     tags={'k': 'generate_guess', 'gg': True,
+                          'ref': seed is not None,
                           'rng_dependent': seed is None, 'rng_state': True})
             else:
                 bad = rng.choice([
@@ -382,28 +383,45 @@ class C14:
                 params, kind = [num(a['lo']), num(a['hi'])], 'uniform'
             else:
                 params, kind = [a['mu'], a['sd']], 'normal'
-            for c in calls:
-                if c['kind'] != kind or c['params'] != [float(p) for p in
-                                                        params]:
-                    ex.add(violation(
-                        'C14.sample', ev['id'],
-                        '%s drew %s%r, declared parameters are %r' % (
-                            what, c['kind'], c['params'], params),
-                        sig='C14.sample:params:' + what))
-                    return
+            declared = all(c['kind'] == kind and
+                           c['params'] == [float(p) for p in params]
+                           for c in calls)
             if not calls:
-                ex.add(violation('C14.sample', ev['id'],
-                                 '%s.sample made no primitive draw' % what,
-                                 sig='C14.sample:nodraw:' + what))
+                # the library drew through something the seam does not see:
+                # observed nothing, judge nothing
+                xc = ex.stats.setdefault('extra', {})
+                xc['sample_unobserved'] = xc.get('sample_unobserved', 0) + 1
                 return
             if t['base'] in ('uniform', 'gaussian'):
-                if len(calls) != 1 or np.asarray(
-                        calls[0]['out']).tobytes() != garr.tobytes():
+                # the sample must be the (affinely mapped) primitive draw:
+                # a draw from uniform(a, b) / normal(m, s) maps onto the
+                # declared distribution by x -> lo + (x-a)(hi-lo)/(b-a) /
+                # x -> mu + (x-m) sd/s, whatever primitive parameters the
+                # library chooses
+                c0 = calls[0]
+                out = np.asarray(c0['out'], dtype=float)
+                pa, pb = c0['params']
+                with np.errstate(all='ignore'):
+                    if t['base'] == 'uniform' and c0['kind'] == 'uniform':
+                        lo_, hi_ = params
+                        want = lo_ + (out - pa) * ((hi_ - lo_) / (pb - pa)) \
+                            if (pa, pb) != (lo_, hi_) else out
+                    elif t['base'] == 'gaussian' and c0['kind'] == 'normal':
+                        want = params[0] + (out - pa) * (params[1] / pb) \
+                            if (pa, pb) != tuple(params) else out
+                    else:
+                        want = None
+                scale = max(abs(float(params[0])), abs(float(params[1])))
+                if len(calls) != 1 or want is None or \
+                        np.shape(want) != garr.shape or not np.allclose(
+                            garr, want, rtol=1e-12, atol=1e-12 * scale):
                     ex.add(violation(
                         'C14.sample', ev['id'],
-                        '%s.sample is not the output of its single '
-                        'primitive draw' % what,
-                        sig='C14.sample:identity:' + what))
+                        '%s.sample(size=%r) is not the primitive draw %s%r '
+                        'mapped onto the declared parameters %r' % (
+                            what, size, c0['kind'], tuple(c0['params']),
+                            params),
+                        sig='C14.sample:distribution:' + what))
                 return
             lo = num(a.get('lo', '-inf'))
             hi = num(a.get('hi', 'inf'))
@@ -420,7 +438,7 @@ class C14:
                         float(flat[bad][0]), int(np.where(bad)[0][0])),
                     sig='C14.sample:support:bounded_gaussian'))
                 return
-            if not np.all(np.isin(flat, drawn)):
+            if declared and not np.all(np.isin(flat, drawn)):
                 ex.add(violation(
                     'C14.sample', ev['id'],
                     'BoundedGaussian sample contains values that were never '
@@ -704,40 +722,36 @@ class C14:
                              sig='C14.generate_guess:shape'))
             return
         seed = ra.get('seed')
-        rs = np.random.RandomState(seed) if seed is not None else None
-        if rs is None:
-            rs = np.random.RandomState()
-            rs.set_state(rec['rng_state_before'])
         scaling = ra.get('scaling', 1)
-        for j, t in enumerate(ts):
-            a = t['args']
-            if t['base'] == 'bounded_gaussian':
-                lo, hi = num(a.get('lo', '-inf')), num(a.get('hi', 'inf'))
-                # scaled towards the guess: scaling <= 1 keeps the support
-                if scaling <= 1 and np.any((got[:, j] < lo) |
-                                           (got[:, j] > hi)):
-                    ex.add(violation(
-                        'C14.generate_guess', ev['id'],
-                        'guess outside the support of BoundedGaussian',
-                        sig='C14.generate_guess:support'))
-                return      # RNG stream no longer predictable column-wise
-            if t['base'] == 'uniform':
-                raw = rs.uniform(num(a['lo']), num(a['hi']), n)
-            else:
-                raw = rs.normal(a['mu'], a['sd'], n)
-            g = self._ref_guess(t)
-            want = g + scaling * (raw - g)
-            with np.errstate(all='ignore'):
-                ok = np.isclose(got[:, j], want, rtol=1e-13, atol=0,
-                                equal_nan=True) | (got[:, j] == want)
-            if not np.all(ok):
+        # reproducible for a seed (whatever was drawn before): equal to any
+        # earlier identical call of this session; equality with a pristine
+        # interpreter is checked by the runner (the op is tagged ref)
+        if seed is not None:
+            from sim import canon
+            memo = ex.__dict__.setdefault('_gg_memo', {})
+            key = canon.digest([ra['prs'], n, scaling, seed])
+            if key in memo and memo[key][1].tobytes() != got.tobytes():
                 ex.add(violation(
                     'C14.generate_guess', ev['id'],
-                    'column %d (%s) is not the documented draw for %s' % (
-                        j, t['base'], 'seed=%r' % seed if seed is not None
-                        else 'the generator state at the call'),
-                    sig='C14.generate_guess:' + (
-                        'seeded' if seed is not None else 'unseeded')))
+                    'generate_guess(seed=%r) differs from the identical call '
+                    'at op %s' % (seed, memo[key][0]),
+                    sig='C14.generate_guess:seeded'))
+                return
+            memo.setdefault(key, (ev['id'], got))
+        for j, t in enumerate(ts):
+            a = t['args']
+            if t['base'] == 'uniform':
+                lo, hi = num(a['lo']), num(a['hi'])
+            elif t['base'] == 'bounded_gaussian':
+                lo, hi = num(a.get('lo', '-inf')), num(a.get('hi', 'inf'))
+            else:
+                continue
+            # scaled towards the guess: scaling <= 1 keeps the support
+            if scaling <= 1 and np.any((got[:, j] < lo) | (got[:, j] > hi)):
+                ex.add(violation(
+                    'C14.generate_guess', ev['id'],
+                    'guess outside the support of %s' % t['base'],
+                    sig='C14.generate_guess:support'))
                 return
 
 
